@@ -38,6 +38,13 @@ Proof. exact beyond_63_weeks_rejected. Qed.
 Theorem C17_unset : time_to_smpp TNone = Ok [] /\ smpp_to_time [] = Ok TNone.
 Proof. exact empty_is_none. Qed.
 
+(* the helper that parses the time-zone part of an ISO 8601 datetime (FixedOffset.from_timezone, an anchor of this property):
+   '+hhmm' is hh hours mm minutes east of UTC, '-hhmm' the same west of UTC - for every sign, hour and minute field *)
+Theorem C17_from_timezone :
+  forall (positive : bool) h m, 0 <= h < 100 -> 0 <= m < 100 ->
+  from_timezone ((if positive then 43 else 45) :: two h ++ two m) = Ok ((if positive then 1 else -1) * (h * 60 + m)).
+Proof. exact from_timezone_offset. Qed.
+
 Example C17_nonvacuous :
   let c := {| c_year := 2024; c_month := 2; c_day := 29; c_hour := 23; c_minute := 59; c_second := 58;
               c_us := 734567; c_off := Some (-11700) |} in
